@@ -19,6 +19,7 @@ fallback = {  # changes whose violation is only observable through another prope
  "C09-w6m2": ["C11"],                       # writer awaited only for WriteTimeout after a read error: two writers on one custom transport
  "C10-w7m2": ["C15"],                       # a scratch buffer shared by all channels through the dialect: a data race
  "C11-w7m1": ["C08"],                       # forwarded frames re-encoded by the node's version (the tag message has no trailing zeros; C08 relay-valid)
+ "C09-w8m1": ["C15"],                       # one package-level checksum hasher again: a data race
 }
 pref = sys.argv[1] if len(sys.argv) > 1 else ""
 out = {}
